@@ -1943,6 +1943,16 @@ def _is_in_class_body(loop: ast.AST, root: ast.AST) -> bool:
     return isinstance(max(scopes, key=start, default=root), ast.ClassDef)
 
 
+def _has_yield_or_walrus(loop: ast.AST) -> bool:
+    """Does loop contain expressions that have no place in a comprehension?
+
+    yield is a syntax error in a comprehension; := is one when it rebinds an iteration variable or
+    occurs in an iterable. Python reports these when it compiles the code, not when it parses it."""
+    return any(
+        isinstance(node, (ast.Yield, ast.YieldFrom, ast.NamedExpr)) for node in ast.walk(loop)
+    )
+
+
 def _is_name_assigned(name: str, root: ast.AST) -> bool:
     """Is name (a builtin) given another meaning anywhere in root?"""
     template = (
@@ -2005,7 +2015,7 @@ def replace_for_loops_with_dict_comp(source: str) -> str:
         if _is_read_in(target, [body_node.targets[0].slice, body_node.value, *generators]):
             continue
 
-        if _is_in_class_body(n2, root):
+        if _is_in_class_body(n2, root) or _has_yield_or_walrus(n2):
             continue
 
         if _is_read_after_loop(_names_in(*(comp.target for comp in generators)), n2, root):
@@ -2095,7 +2105,7 @@ def replace_for_loops_with_set_list_comp(source: str) -> str:
         if _is_read_in(target, evaluated):
             continue
 
-        if _is_in_class_body(n2, root):
+        if _is_in_class_body(n2, root) or _has_yield_or_walrus(n2):
             continue
 
         if _is_read_after_loop(_names_in(*(comp.target for comp in generators)), n2, root):
@@ -2210,7 +2220,7 @@ def replace_nested_loops_with_set_list_comp(source: str) -> str:
                 # ... so the loop cannot depend on what the container was in the previous iteration
                 if _is_read_in(m.container.id, [m.expression, *generators]):
                     continue
-            if _is_in_class_body(outermost_for, root):
+            if _is_in_class_body(outermost_for, root) or _has_yield_or_walrus(outermost_for):
                 continue
             if _is_read_after_loop(bound_names, outermost_for, root):
                 continue
@@ -3533,8 +3543,10 @@ def replace_setcomp_add_with_union(source: str) -> str:
             continue
 
         loop = next(node for node in core.walk(root, ast.For) if node.target is template_match.target)
-        if _is_in_class_body(loop, root) or _is_read_after_loop(
-            _names_in(loop.target), loop, root
+        if (
+            _is_in_class_body(loop, root)
+            or _has_yield_or_walrus(loop)
+            or _is_read_after_loop(_names_in(loop.target), loop, root)
         ):
             continue
 
@@ -3591,8 +3603,10 @@ def replace_listcomp_append_with_plus(source: str) -> str:
             continue
 
         loop = next(node for node in core.walk(root, ast.For) if node.target is template_match.target)
-        if _is_in_class_body(loop, root) or _is_read_after_loop(
-            _names_in(loop.target), loop, root
+        if (
+            _is_in_class_body(loop, root)
+            or _has_yield_or_walrus(loop)
+            or _is_read_after_loop(_names_in(loop.target), loop, root)
         ):
             continue
 
